@@ -29,7 +29,11 @@ def runOutput (table : List (String × OutputFn)) (j : Json) (st : Settings) (ts
 def loadCase (j : Json) (st : Settings) : R (Outcome (List Txn × Settings) × List (String × Json)) := do
   match optField j "txns" with
   | some txns =>
-    let rs ← rawTxns txns
+    -- an AST cannot carry a number token that is not representable as a `Dec`; the parser rejects such a token
+    -- (`Syntax.pNumber` via `Dec.ofToken = none`) and with it the whole input, so the load is `err`
+    match rawTxns txns with
+    | .error e => if e.startsWith "unrepresentable decimal" then pure (.err, []) else throw e
+    | .ok rs =>
     let extra ← match optField j "astcheck", optField j "text" with
       | some (.bool true), some t => do
         let cfg ← tsCfg j
